@@ -1,0 +1,143 @@
+//go:build verif
+// +build verif
+
+package command
+
+import (
+	"context"
+	"io"
+	"net"
+	"time"
+
+	"github.com/v-byte-cpu/sx/command/log"
+	"github.com/v-byte-cpu/sx/pkg/scan"
+	"github.com/v-byte-cpu/sx/pkg/scan/arp"
+	"github.com/v-byte-cpu/sx/pkg/scan/icmp"
+	"github.com/v-byte-cpu/sx/pkg/scan/tcp"
+	"github.com/v-byte-cpu/sx/pkg/scan/udp"
+)
+
+// Exports for the verification harness (build tag "verif"); add-only, no behaviour change.
+
+type VerifOpenFile = func() (io.ReadCloser, error)
+
+func VerifParsePortRange(s string) (*scan.PortRange, error)    { return parsePortRange(s) }
+func VerifParsePortRanges(s string) ([]*scan.PortRange, error) { return parsePortRanges(s) }
+func VerifParsePortsFile(open VerifOpenFile) ([]*scan.PortRange, error) {
+	return parsePortsFile(openFileFunc(open))
+}
+func VerifParseRateLimit(s string) (int, time.Duration, error) { return parseRateLimit(s) }
+func VerifParsePacketPayload(s string) ([]byte, error)         { return parsePacketPayload(s) }
+func VerifParseIPFlags(s string) (uint8, error)                { return parseIPFlags(s) }
+func VerifParseTCPFlags(s string) ([]string, error)            { return parseTCPFlags(s) }
+func VerifParseExcludeFile(open VerifOpenFile) (scan.IPContainer, error) {
+	return parseExcludeFile(openFileFunc(open))
+}
+
+// VerifTCPFlagFiller builds the filler exactly as the `tcp --flags` command does.
+func VerifTCPFlagFiller(flags []string, vpnMode bool) *tcp.PacketFiller {
+	var opts []tcp.PacketFillerOption
+	for _, flag := range flags {
+		opts = append(opts, tcpPacketFlagOptions[flag])
+	}
+	opts = append(opts, tcp.WithFillerVPNmode(vpnMode))
+	return tcp.NewPacketFiller(opts...)
+}
+
+func VerifTCPFlagNames() []string {
+	var names []string
+	for k := range tcpPacketFlagOptions {
+		names = append(names, k)
+	}
+	return names
+}
+
+// VerifOpts is the subset of parsed CLI state the request/packet wiring depends on.
+type VerifOpts struct {
+	IPFile      string
+	Ports       []*scan.PortRange
+	Exclude     scan.IPContainer
+	Cache       *arp.Cache
+	GatewayMAC  net.HardwareAddr
+	VPNMode     bool
+	LiveTimeout time.Duration
+	Workers     int
+	RateCount   int
+	RateWindow  time.Duration
+
+	TTL, IPFlags, IPProto uint8
+	IPLen                 uint16
+	ICMPType, ICMPCode    uint8
+	Payload               []byte
+}
+
+func (v *VerifOpts) ipScan() ipScanCmdOpts {
+	return ipScanCmdOpts{
+		packetScanCmdOpts: packetScanCmdOpts{excludeIPs: v.Exclude, rateCount: v.RateCount, rateWindow: v.RateWindow},
+		ipFile:            v.IPFile, gatewayMAC: v.GatewayMAC, vpnMode: v.VPNMode, cache: v.Cache,
+	}
+}
+
+func (v *VerifOpts) ipPortScan() ipPortScanCmdOpts {
+	return ipPortScanCmdOpts{ipScanCmdOpts: v.ipScan(), portRanges: v.Ports}
+}
+
+func (v *VerifOpts) generic() genericScanCmdOpts {
+	return genericScanCmdOpts{ipFile: v.IPFile, portRanges: v.Ports, excludeIPs: v.Exclude,
+		workers: v.Workers, rateCount: v.RateCount, rateWindow: v.RateWindow}
+}
+
+// request generators exactly as the commands compose them
+func VerifPacketIPPortGenerator(v *VerifOpts) scan.RequestGenerator {
+	o := v.ipPortScan()
+	return o.newIPPortGenerator()
+}
+
+func VerifGenericIPPortGenerator(v *VerifOpts) scan.RequestGenerator {
+	o := v.generic()
+	return o.newIPPortGenerator()
+}
+
+func VerifGenericScanEngine(ctx context.Context, v *VerifOpts, scanner scan.Scanner) *scan.GenericEngine {
+	o := v.generic()
+	return o.newScanEngine(ctx, scanner)
+}
+
+func VerifARPScanMethod(ctx context.Context, v *VerifOpts) *arp.ScanMethod {
+	o := arpCmdOpts{packetScanCmdOpts: packetScanCmdOpts{excludeIPs: v.Exclude}, liveTimeout: v.LiveTimeout}
+	return o.newARPScanMethod(ctx)
+}
+
+func VerifICMPScanMethod(ctx context.Context, v *VerifOpts) *icmp.ScanMethod {
+	o := icmpCmdOpts{ipScanCmdOpts: v.ipScan(), ipTTL: v.TTL, ipFlags: v.IPFlags, ipProtocol: v.IPProto,
+		ipTotalLen: v.IPLen, icmpType: v.ICMPType, icmpCode: v.ICMPCode, icmpPayload: v.Payload}
+	return o.newICMPScanMethod(ctx)
+}
+
+func VerifUDPScanMethod(ctx context.Context, v *VerifOpts) *udp.ScanMethod {
+	o := udpCmdOpts{ipPortScanCmdOpts: v.ipPortScan(), ipTTL: v.TTL, ipFlags: v.IPFlags, ipProtocol: v.IPProto,
+		ipTotalLen: v.IPLen, udpPayload: v.Payload}
+	return o.newUDPScanMethod(ctx)
+}
+
+// VerifTCPScanMethod composes the method like `tcp --flags`; the per-subcommand arguments
+// (name, filler options, packet filter, flag printer) are supplied by the caller.
+func VerifTCPScanMethod(ctx context.Context, v *VerifOpts, scanName string, fillerOpts []tcp.PacketFillerOption,
+	filter tcp.PacketFilterFunc, flags tcp.PacketFlagsFunc) *tcp.ScanMethod {
+	o := tcpCmdOpts{ipPortScanCmdOpts: v.ipPortScan()}
+	return o.newTCPScanMethod(ctx, withTCPScanName(scanName), withTCPPacketFillerOptions(fillerOpts...),
+		withTCPPacketFilterFunc(filter), withTCPPacketFlags(flags))
+}
+
+func VerifStartScanEngine(ctx context.Context, engine scan.EngineResulter, logger log.Logger,
+	r *scan.Range, exitDelay time.Duration) error {
+	return startScanEngine(ctx, engine, newEngineConfig(withLogger(logger), withScanRange(r), withExitDelay(exitDelay)))
+}
+
+// VerifGetScanRange runs the interface / source selection of the packet commands.
+func VerifGetScanRange(iface *net.Interface, srcIP net.IP, srcMAC net.HardwareAddr, dst *net.IPNet) (*scan.Range, error) {
+	o := packetScanCmdOpts{iface: iface, srcIP: srcIP, srcMAC: srcMAC}
+	return o.getScanRange(dst)
+}
+
+func VerifDefaultExitDelay() time.Duration { return defaultExitDelay }
